@@ -89,6 +89,12 @@ def make_pairs(decl, case, cat):
                 continue                          # base already uses explicit units
             if not (float(p.Min) <= v0 <= float(p.Max)):
                 continue                          # out-of-range sentinel default
+            # a value with all its digits rather than the example's round figure (the reference execution writes it out
+            # explicitly too): conversions that round or re-format the number on the way in must show
+            for f in (1.0 + 1.234567891e-4, 1.0 - 1.234567891e-4):
+                if v0 != 0.0 and float(p.Min) <= v0 * f <= float(p.Max):
+                    v0 = v0 * f
+                    break
             for u in cat[ut]:
                 if u == pref or u.strip() == '':
                     continue
